@@ -173,7 +173,7 @@ func feasible(cons []Lin, env Env) bool {
 				kp, kn := p.Coef(best), -n.Coef(best)
 				g := gcd(kp, kn)
 				// (kn/g)*p + (kp/g)*n eliminates best
-				c := p.Scale(kn / g).AddMul(n, kp/g)
+				c := p.Scale(kn/g).AddMul(n, kp/g)
 				if c.Bad {
 					continue // drop: weaker system, still sound for "feasible => not entailed"
 				}
@@ -196,23 +196,40 @@ func feasible(cons []Lin, env Env) bool {
 
 // dedup keeps, for each linear part, the tightest constant.
 func dedup(sys []Lin) []Lin {
-	best := map[string]int{}
-	var out []Lin
+	best := make(map[uint64][]int, len(sys))
+	out := make([]Lin, 0, len(sys))
 	for _, c := range sys {
 		if c.Bad {
 			continue
 		}
-		k := c.Key()
-		if i, ok := best[k]; ok {
-			if c.C < out[i].C {
-				out[i] = c
+		h := c.Hash()
+		found := false
+		for _, i := range best[h] {
+			if out[i].SameTerms(c) {
+				if c.C < out[i].C {
+					out[i] = c
+				}
+				found = true
+				break
 			}
+		}
+		if found {
 			continue
 		}
-		best[k] = len(out)
+		best[h] = append(best[h], len(out))
 		out = append(out, c)
 	}
 	return out
+}
+
+// impliedSyntactically: some constraint of cons has the same linear part and a constant <= goal's.
+func impliedSyntactically(cons []Lin, goal Lin) bool {
+	for _, c := range cons {
+		if c.C <= goal.C && c.SameTerms(goal) {
+			return true
+		}
+	}
+	return false
 }
 
 // coneOf restricts cons to those transitively sharing atoms with seed.
@@ -260,6 +277,9 @@ func Entails(cons []Lin, goal Lin, env Env) bool {
 	}
 	if len(goal.T) == 0 {
 		return goal.C >= 0
+	}
+	if impliedSyntactically(cons, goal) {
+		return true
 	}
 	neg := goal.Neg().AddConst(-1) // -goal - 1 >= 0
 	if neg.Bad {
@@ -313,7 +333,7 @@ func Eliminate(cons []Lin, a Atom, env Env) []Lin {
 		for _, n := range neg {
 			kp, kn := p.Coef(a), -n.Coef(a)
 			g := gcd(kp, kn)
-			c := p.Scale(kn / g).AddMul(n, kp/g)
+			c := p.Scale(kn/g).AddMul(n, kp/g)
 			if c.Bad {
 				continue
 			}
